@@ -422,6 +422,21 @@ fn gen_ops(r: &mut Rng, w: &[u32; NK], n: usize, ops: &mut Vec<Op>, depth: &mut 
                     seed,
                 },
             },
+            K_FILL_WITH | K_FILL_COPY | K_FILL_ITER if c.uniform.is_none() && r.chance(1, 30) => Op::HugeLen {
+                entry: r.below(7) as u8,
+                try_,
+                len: *r.pick(&[
+                    usize::MAX,
+                    usize::MAX / 8 + 2,
+                    usize::MAX / 2 + 1,
+                    isize::MAX as usize,
+                    isize::MAX as usize / 8 + 1,
+                    isize::MAX as usize / 2 + 1,
+                    1usize << 61,
+                    1 << 40,
+                    1 << 37,
+                ]),
+            },
             K_SLICE_COPY | K_FILL_WITH | K_FILL_COPY | K_FILL_ITER => {
                 let ety = match c.uniform {
                     Some(a) => *r.pick(uniform_types(a).1),
